@@ -3,7 +3,9 @@
 
   py_grammar  Hypothesis grammar of standard-compliant documents (arbitrary inter-token whitespace, every escape incl. \\/ and
               \\u0000..\\u00ff in both hex cases, raw ASCII 0x20..0x7F, number forms -0, 0.5, 1e5, 1E+2, 5e-1, 1.25E-3, integers
-              up to the int64 boundaries, integer parts of 1..25 digits for non-integers, exponents within double range,
+              up to the int64 boundaries, integer parts of 1..25 digits for non-integers, exponents within double range (a quarter
+              of them spelled with up to 20 leading zeros), strings holding hundreds to thousands of structural characters and
+              ending in escaped backslashes (documents of more than 1000 bytes),
               un-normalised mantissas 1e-36..1e38 whose exponent alone runs to +-327 while the value stays within
               1e-290..1e291, unique keys, empty containers anywhere, occasional nesting up to 500). For the three entry points
               x {default, strict}:
@@ -24,6 +26,7 @@
 """
 import json
 import os
+import re
 import struct
 import sys
 
@@ -154,6 +157,64 @@ _SPECIAL_NUMS = ["-0", "0.5", "1e5", "1E+2", "5e-1", "25e-1", "1.25E-3", "-0.0",
 
 
 @st.composite
+def exp_spelling(draw, magnitude):
+    """exp = e [+-] 1*DIGIT puts no bound on the number of digits: e0000000002 is the exponent 2. A quarter of the exponents
+    carry 1..3 or 0..20 leading zeros."""
+    if draw(st.integers(0, 3)) == 0:
+        return "0" * draw(st.one_of(st.integers(1, 3), st.integers(0, 20))) + str(magnitude)
+    return str(magnitude)
+
+
+_BULK_ELEMS = ["[", "{", "]", "}", ",", ":", "/", " ", '\\"', "\\\\"]
+_BULK_TAILS = ["", "\\\\", "\\\\" * 2, "\\\\" * 3, '\\"', ""]
+
+
+@st.composite
+def bulk_string_body(draw):
+    """Structural characters in bulk (hundreds to thousands of brackets, braces, commas, colons, escaped quotes and escaped
+    backslashes) inside a string, which may end in 1..3 escaped backslashes or an escaped quote."""
+    theme = draw(st.integers(0, 3))
+    n = draw(st.one_of(st.integers(0, 299), st.integers(300, 2600), st.integers(300, 2600)))
+    if theme == 0:
+        body = draw(st.sampled_from(_BULK_ELEMS)) * n
+    else:
+        rnd = draw(st.randoms(use_true_random=False))
+        if theme == 1:
+            body = "".join(rnd.choice("[{") if rnd.random() < 0.875 else rnd.choice(_BULK_ELEMS) for _ in range(n))
+        elif theme == 2:
+            body = "".join(rnd.choice(_BULK_ELEMS) for _ in range(n))
+        else:
+            body = "".join(rnd.choice("[{") for _ in range(n // 2)) + "".join(rnd.choice("]}") for _ in range(n - n // 2))
+    return body + draw(st.sampled_from(_BULK_TAILS))
+
+
+@st.composite
+def bulk_doc_tokens(draw):
+    """a few strings (keys and values) with bulk structural content, small strings with the same endings and small values"""
+    is_dict = draw(st.booleans())
+    n = draw(st.integers(2, 4))
+    toks = [["punct", "{" if is_dict else "["]]
+    small = st.builds(lambda b, t: b + t, string_body(), st.sampled_from(_BULK_TAILS))
+    for j in range(n):
+        if j:
+            toks.append(["punct", ","])
+        toks.append(["ws", draw(WS)])
+        if is_dict:
+            toks.append(["str", '"' + str(j) + draw(st.one_of(bulk_string_body(), small)) + '"'])  # unique: the key starts with the entry index
+            toks += [["ws", draw(WS)], ["punct", ":"], ["ws", draw(WS)]]
+        k = draw(st.integers(0, 3))
+        if k == 0:
+            toks.append(["str", '"' + draw(small) + '"'])
+        elif k == 1:
+            toks += draw(value_tokens(1))
+        else:
+            toks.append(["str", '"' + draw(bulk_string_body()) + '"'])
+        toks.append(["ws", draw(WS)])
+    toks.append(["close+", "}" if is_dict else "]"])
+    return toks
+
+
+@st.composite
 def int_token(draw):
     v = draw(st.one_of(st.sampled_from([-2**63, 2**63 - 1, 0, 1, -1, -2**63 + 1, 2**63 - 2, 2**53 + 1]), st.integers(-2**63, 2**63 - 1), st.integers(-100, 100)))
     return ["int", str(v)]
@@ -178,7 +239,7 @@ def unnormalised_num(draw):
     e = draw(st.one_of(st.integers(lo, min(hi, lo + 44)), st.integers(max(lo, hi - 44), hi), st.integers(-mag - 3, -mag + 3), st.integers(lo, hi)))
     s += draw(st.sampled_from("eE"))
     s += "-" if e < 0 else draw(st.sampled_from(["", "+"]))
-    return ["num", s + str(abs(e))]
+    return ["num", s + draw(exp_spelling(abs(e)))]
 
 
 @st.composite
@@ -203,10 +264,7 @@ def num_token(draw):
         e = max(lo, min(hi, e))
         s += draw(st.sampled_from("eE"))
         s += "-" if e < 0 else draw(st.sampled_from(["", "+"]))
-        ed = str(abs(e))
-        if len(ed) < 3 and draw(st.integers(0, 5)) == 0:
-            ed = "0" + ed
-        s += ed
+        s += draw(exp_spelling(abs(e)))
     return ["num", s]
 
 
@@ -266,7 +324,7 @@ _NON_EXT = list(b" ,]}:\"\n#@!z[{-/*\x00\xff")
 _GARBAGE_FIRST = list(b",]}:\"#@!z[{-*\x00\xff\x80")
 
 grammar_cases = st.fixed_dictionaries({
-    "toks": st.one_of(container_tokens(4), container_tokens(3), container_tokens(2), leaf_tokens(), nested_tokens()),
+    "toks": st.one_of(container_tokens(4), container_tokens(3), container_tokens(2), leaf_tokens(), nested_tokens(), bulk_doc_tokens()),
     "lead": WS, "trail": WS,
     "suffix": st.tuples(st.sampled_from(_NON_EXT), st.binary(max_size=4)).map(lambda p: (bytes([p[0]]) + p[1]).hex()),
     "garbage": st.tuples(st.sampled_from(_GARBAGE_FIRST), st.binary(max_size=3)).map(lambda p: (bytes([p[0]]) + p[1]).hex()),
@@ -315,6 +373,10 @@ def run_grammar(case, rt):
     if depth >= 2 and any(k in core for k in (".", "e", "E", "\\")):
         rt.nontrivial()
     rt.cls("py:depth>=100" if depth >= 100 else "py:depth 2-99" if depth >= 2 else "py:depth<2")
+    if len(doc) > 1000 and depth < 100:
+        rt.cls("py:>1000 bytes with bulk structural characters inside strings")
+    if any(t[0] == "num" and re.search(r"[0-9][eE][+-]?0[0-9]", t[1]) for t in case["toks"]):
+        rt.cls("py:exponent spelled with leading zeros")
     rt.count(15)
 
 
